@@ -482,19 +482,35 @@ Section Stream.
   Lemma denote_nonnil_buf cm : denote cm <> [] -> ctext_pre (c_first cm) (c_lits cm) ++ last_text (c_first cm) (c_lits cm) <> [].
   Proof. unfold denote. rewrite ctext_split. auto. Qed.
 
+  (* a complete command within the limits (this does not depend on any of the fixes) *)
+  Lemma cmd_run cm tail :
+    wf_cmd cm -> run c [] 0 (render cm ++ tail) = emits (conts (c_lits cm) ++ [Msg (denote cm)]) (run c [] 0 tail).
+  Proof.
+    intros (Hok & Hn & Hl & Hw & Ha & Hne & Hsz).
+    unfold render, denote in *. rewrite ctext_split in *. rewrite <- ?app_assoc.
+    assert (Hp : blen ([] ++ ctext_pre (c_first cm) (c_lits cm)) <= maxin c).
+    { cbn [app]. revert Hsz. rewrite blen_app. pose proof (blen_nonneg (last_text (c_first cm) (c_lits cm))). lia. }
+    change 0 with (blen []).
+    rewrite (lits_run _ [] _ _ Hok Hp). cbn [app].
+    rewrite (step_last c _ _ tail Hn Hl Hw Ha Hne), (gtb_false _ _ Hsz).
+    rewrite emits_app. reflexivity.
+  Qed.
+
+  Lemma cmds_run : forall cmds,
+    Forall wf_cmd cmds ->
+    frame_loop c (List.concat (map render cmds)) = (flat_map (fun cm => conts (c_lits cm) ++ [Msg (denote cm)]) cmds, Eof).
+  Proof.
+    unfold frame_loop. induction 1 as [|cm cmds Hc _ IH].
+    - apply run_nil.
+    - cbn [map List.concat flat_map]. rewrite (cmd_run cm _ Hc), IH. unfold emits. cbn [fst snd]. reflexivity.
+  Qed.
+
   Lemma item_run i tail :
     wf_item i -> run c [] 0 (render_item i ++ tail) = emits (item_events i) (run c [] 0 tail).
   Proof.
     destruct i as [cm|w|cm ds plus data|cm l|cm]; cbn [wf_item render_item item_events].
     - (* a complete command *)
-      intros (Hok & Hn & Hl & Hw & Ha & Hne & Hsz).
-      unfold render, denote in *. rewrite ctext_split in *. rewrite <- ?app_assoc.
-      assert (Hp : blen ([] ++ ctext_pre (c_first cm) (c_lits cm)) <= maxin c).
-      { cbn [app]. revert Hsz. rewrite blen_app. pose proof (blen_nonneg (last_text (c_first cm) (c_lits cm))). lia. }
-      change 0 with (blen []).
-      rewrite (lits_run _ [] _ _ Hok Hp). cbn [app].
-      rewrite (step_last c _ _ tail Hn Hl Hw Ha Hne), (gtb_false _ _ Hsz).
-      rewrite emits_app. reflexivity.
+      apply cmd_run.
     - (* a blank line *)
       intros (Hw & Hn & Hl). rewrite <- app_assoc. apply (step_blank c w tail Hw Hn Hl).
     - (* an announcement over the limit *)
@@ -861,16 +877,14 @@ Section Corollaries.
     writes_of o = flat_map (fun cm => repeat CONT (sync_lits (c_lits cm))) cmds /\
     snd o = Eof.
   Proof.
-    intros cmds H. cbv zeta.
-    assert (Hi : Forall wf_item (map ICmd cmds)) by (apply Forall_map; exact H).
-    pose proof (stream_run c Hfix Hlim _ Hi) as E. rewrite map_map in E. cbn [render_item] in E.
-    change (map (fun x : cmd => render x) cmds) with (map render cmds) in E.
-    rewrite E. unfold msgs_of, writes_of. cbn [fst snd]. split; [|split; [|reflexivity]].
-    - rewrite msgs_of_events. unfold commands_of. clear. induction cmds as [|x r IH]; [reflexivity|].
-      cbn [map flat_map app]. rewrite IH. reflexivity.
-    - rewrite writes_of_events. clear. induction cmds as [|x r IH]; [reflexivity|].
-      cbn [map flat_map]. rewrite IH. unfold item_writes. cbn [item_events]. rewrite flat_map_app, conts_writes.
-      cbn [flat_map]. rewrite app_nil_r. reflexivity.
+    intros cmds H. cbv zeta. rewrite (cmds_run c Hlim _ H). unfold msgs_of, writes_of. cbn [fst snd].
+    split; [|split; [|reflexivity]]; clear; induction cmds as [|x r IH]; try reflexivity;
+      cbn [map flat_map]; rewrite !flat_map_app, IH.
+    - assert (Hc : forall ls, flat_map (fun e => match e with Msg m => [m] | Wr _ => [] end) (conts ls) = []).
+      { induction ls as [|l r0 IHl]; [reflexivity|]. unfold conts in *. cbn [flat_map]. rewrite flat_map_app, IHl.
+        destruct (l_plus l); reflexivity. }
+      rewrite Hc. reflexivity.
+    - rewrite conts_writes. cbn [flat_map]. rewrite app_nil_r. reflexivity.
   Qed.
 
   (* staying in sync: with refusals of every kind mixed in, exactly the commands of the stream are
